@@ -26,16 +26,17 @@
    events at relative time 0 are delivered inside subscribe() - that is how "an inner that
    completes synchronously at subscription" is written down.
 
-   One lane event is delivered by several micro steps: the lane action puts the calls it
-   makes into `todo` (a hot inner calls each of its subscribers in subscription order), the
-   action Step performs the first of them; calls made from inside a call (the synchronous
-   events of an inner subscribed by that call) go to the FRONT of todo - todo is the call
-   stack unrolled.  Nothing else fires while todo is not empty.
+   A lane event makes its first call at once (one TLC step); the calls it still has to make (a hot
+   inner calls each of its subscribers, in subscription order) wait in `todo`, and calls made
+   from inside a call (the synchronous events of an inner subscribed by that call) go to the
+   FRONT of todo - todo is the call stack unrolled.  Step performs the first pending call;
+   nothing else fires while todo is not empty.
 
-   The operators are stated twice: the handlers below (implementation shaped: active
-   list, queue, outerDone / latest, hasLatest) and, further down, the property as a
-   closed predicate on (scenario, output, subscription log) - RefOut, RefSubs, RefSwitch...
-   TLC checks that the first satisfies the second in every final state.                  *)
+   The operators are stated twice: the handlers below (implementation shaped: active list,
+   queue, outerDone / latest, hasLatest) and, further down, the property as closed predicates on
+   (scenario, output, subscription log) - RefOutBody, RefSubsBody, ConcatBody, OutVsSubsBody.
+   TLC checks that the first satisfies the second in every final state, and Grammar, Released,
+   ActiveOpen, Concurrency, NoIdleSlot, Causal in every state, LatestOnly on every step.     *)
 EXTENDS Integers, Sequences, FiniteSets, TLC, Json
 
 CONSTANTS Ops,          \* operator names explored
@@ -418,13 +419,26 @@ RefSubsBody(Q) ==
 
 \* C11 "concat_map is the ordered concatenation": with one slot the output is the inners' elements one inner after the other
 ConcatBody == (IsMerge /\ Mc = 1) => \A p, q \in NRecs : p < q => S.out[p].s <= S.out[q].s
+\* Every flavour and operator (also hot inners and exclusive, which the closed form above does not cover): the output is
+\* consistent with the subscription log - an element comes from an open subscription of its inner at its own instant, and
+\* every element of an inner that falls strictly inside one of its subscription intervals is in the output once.
+AbsOf(sid, j) == (IF scn.fl = "hot" THEN HotOff ELSE S.subs[sid].open) + Inner(S.subs[sid].idx)[j].t
+OutVsSubsBody ==
+    /\ \A p \in NRecs : LET r == S.out[p] IN
+          /\ r.s \in 1..Len(S.subs) /\ S.subs[r.s].idx = r.i /\ r.j \in NIdx(r.i)
+          /\ r.t = AbsOf(r.s, r.j) /\ S.subs[r.s].open <= r.t /\ r.t <= S.subs[r.s].close
+    /\ \A p, q \in NRecs : (p < q /\ S.out[p].s = S.out[q].s) => S.out[p].j < S.out[q].j
+    /\ \A sid \in 1..Len(S.subs) : \A j \in NIdx(S.subs[sid].idx) :
+          (S.subs[sid].open < AbsOf(sid, j) /\ AbsOf(sid, j) < S.subs[sid].close)
+            => \E p \in NRecs : S.out[p].s = sid /\ S.out[p].j = j
+OutVsSubs     == Final => OutVsSubsBody
 RefOut        == (Final /\ RefScope) => RefOutBody(Sched(NEff))
 RefSubs       == (Final /\ RefScope) => RefSubsBody(Sched(NEff))
 ConcatOrdered == Final => ConcatBody
 
 (* ---- everything in one invariant (the cfg lists AllInv; the named parts are for diagnosis) -------- *)
 StateInv == Grammar /\ Released /\ ActiveOpen /\ Concurrency /\ NoIdleSlot /\ Causal
-FinalInv == (RefScope => LET Q == Sched(NEff) IN RefOutBody(Q) /\ RefSubsBody(Q)) /\ ConcatBody
+FinalInv == (RefScope => LET Q == Sched(NEff) IN RefOutBody(Q) /\ RefSubsBody(Q)) /\ ConcatBody /\ OutVsSubsBody
 
 (* ---- export ---------------------------------------------------------------------------------- *)
 ExportLine == PrintT(ToJson([scn |-> [op |-> scn.op, mc |-> scn.mc, fl |-> scn.fl, outer |-> scn.outer, fmap |-> scn.fmap,
